@@ -10,7 +10,10 @@ from . import common
 def scenario(rng):
     variant = rng.choice(["secret", "secret", "secret-preconf", "invisible", "invisible"])
     sc = dict(variant=variant, public=[], hidden=[], queries=[], speak=[], obs_mp=rng.random() < 0.5,
-              cfg0={}, cfg1={})
+              cfg0={}, cfg1={},
+              # the observer may share the USER name / real name with a hidden user: identity is the nickname only
+              obs_user=rng.choice(["observer", "ivy", "hside", "pone"]),
+              obs_real=rng.choice([None, "Ivy Invisible", "R hs"]))
     pub, hid = sc["public"], sc["hidden"]
     obs_member = rng.random() < 0.6
     for u in ("p1", "p2", "p3", "hs"):
@@ -92,8 +95,9 @@ def run_world(binary, hooks, sc, hidden):
                 steps = steps + list(sc["hidden"])
             for who, what in steps:
                 if who == "connect":
-                    w.connect(what, what, USERS[what], caps=["multi-prefix"] if (what == "obs" and sc["obs_mp"]) else None,
-                              realname=REAL.get(what))
+                    w.connect(what, what, sc["obs_user"] if what == "obs" else USERS[what],
+                              caps=["multi-prefix"] if (what == "obs" and sc["obs_mp"]) else None,
+                              realname=sc["obs_real"] if what == "obs" else REAL.get(what))
                 else:
                     w.do(who, what)
             w.settle()
